@@ -2,7 +2,7 @@
 # run_seeds.sh [id...]  — applies each confirmed seeded change to /repo, runs the quick check of its property, undoes it.
 # Prints one line per seed: caught (exit 1 + VIOLATION), undecided (exit 2), missed (exit 0).
 cd /verif
-ids=${@:-$(ls -d seeded/*/ | xargs -n1 basename)}
+ids=${@:-$(ls -d seeded/C*/ | xargs -n1 basename)}
 for id in $ids; do
   d=seeded/$id
   pid=$(python3 -c "import json;print(json.load(open('$d/meta.json')).get('property','${id%%-*}'))")
